@@ -79,6 +79,7 @@ type Exec struct {
 	splitRange  bool
 	decTerms    [][2]T
 	beTerms     [][3]T
+	foldTerms   []foldApp
 	suffix      string
 	srcLines    map[string][]string
 	usedWaivers map[*Waiver]bool
@@ -465,7 +466,16 @@ func newExec(w *World, fn *ssa.Function, c *Contract, split *int) *Exec {
 	if split != nil {
 		x.suffix = fmt.Sprintf("/%s=%d", c.Split.Var, *split)
 	}
-	x.ev = &Evaluator{th: th, vc: x.vc, pkg: w.tpkg, sigs: w.sigs[mode]}
+	x.ev = &Evaluator{th: th, vc: x.vc, pkg: w.tpkg, sigs: w.sigs[mode], folds: w.foldMap()}
+	x.ev.typeTag = w.typeTag
+	x.ev.onFold = func(name string, arr, off, n T) {
+		for _, t := range x.foldTerms {
+			if t.Name == name && t.Arr.S == arr.S && t.Off.S == off.S && t.N.S == n.S {
+				return
+			}
+		}
+		x.foldTerms = append(x.foldTerms, foldApp{name, arr, off, n})
+	}
 	x.ev.deref = func(p Ptr, old bool) Val {
 		if old {
 			st := x.entryMem
@@ -771,6 +781,7 @@ func (x *Exec) attachAxioms(o *Obligation) {
 	rsT := append([][2]T{}, x.rsTerms...)
 	decT := append([][2]T{}, x.decTerms...)
 	beT := append([][3]T{}, x.beTerms...)
+	foldT := append([]foldApp{}, x.foldTerms...)
 	mode := x.th.Mode()
 	w := x.w
 	o.Levels = 1
@@ -818,6 +829,13 @@ func (x *Exec) attachAxioms(o *Obligation) {
 			}
 		}
 		out = append(out, beInstances(bes)...)
+		var fas []foldApp
+		for _, t := range foldT {
+			if allRel(t.Arr, rel) && allRel(t.Off, rel) && allRel(t.N, rel) {
+				fas = append(fas, t)
+			}
+		}
+		out = append(out, w.foldInstances(fas, 2)...)
 		if mode == "int" {
 			for _, d := range decT {
 				if allRel(d[0], rel) && allRel(d[1], rel) {
@@ -908,6 +926,77 @@ func beInstances(terms [][3]T) []string {
 			out = append(out, fmt.Sprintf("(assert (=> (and (= %s (+ %s 1)) (= %s (- %s 1)) (>= %s 1) (= %s 0)) (= %s %s)))",
 				b[1].S, a[1].S, b[2].S, a[2].S, a[2].S, sel(a[1].S), app3(a), app3(b)))
 		}
+	}
+	return out
+}
+
+// ---------------------------------------------------------------- fold specification functions
+
+type foldApp struct {
+	Name       string
+	Arr, Off, N T
+}
+
+func (w *World) foldMap() map[string]*Fold {
+	m := map[string]*Fold{}
+	for _, f := range w.contracts.Folds {
+		m[f.Name] = f
+	}
+	return m
+}
+
+// foldInstances unfolds every application F(a, off, n) once (and the applications at n-1 that the
+// unfolding introduces, down to the given depth):
+//   n <= 0 => F = init;   n >= 1 => F(a,off,n) = step[acc := F(a,off,n-1), c := a[off+n-1], G := G(a,off,n-1)]
+func (w *World) foldInstances(apps []foldApp, depth int) []string {
+	var out []string
+	seen := map[string]bool{}
+	folds := w.foldMap()
+	th := IntTheory{}
+	var unfold func(a foldApp, d int)
+	unfold = func(a foldApp, d int) {
+		key := a.Name + "|" + a.Arr.S + "|" + a.Off.S + "|" + a.N.S
+		if seen[key] || d <= 0 {
+			return
+		}
+		seen[key] = true
+		f := folds[a.Name]
+		if f == nil {
+			return
+		}
+		app := func(name string, n T) T {
+			return T{S: fmt.Sprintf("(fold_%s %s %s %s)", name, a.Arr.S, a.Off.S, n.S), Sort: sortInt}
+		}
+		nm1 := mkSub(a.N, intT64(1))
+		c := T{S: fmt.Sprintf("(select %s %s)", a.Arr.S, mkAdd(a.Off, nm1).S), Sort: sortInt}
+		ev := &Evaluator{th: th, pkg: w.tpkg, sigs: w.sigs["int"]}
+		env := &Env{vars: map[string]Val{"acc": Leaf{T: app(a.Name, nm1)}, "c": Leaf{T: c}, "n": Leaf{T: a.N}}}
+		for _, ff := range w.contracts.Folds {
+			if ff.Name != a.Name {
+				env.vars[ff.Name] = Leaf{T: app(ff.Name, nm1)}
+			}
+		}
+		func() {
+			defer func() {
+				if r := recover(); r != nil {
+					if ee, ok := r.(evalErr); ok {
+						panic(unsupported(fmt.Sprintf("fold %s: %s", f.Name, string(ee))))
+					}
+					panic(r)
+				}
+			}()
+			ini := ev.specOf(ev.Eval(f.Init.E, env))
+			stp := ev.specOf(ev.Eval(f.Step.E, env))
+			self := app(a.Name, a.N)
+			out = append(out, fmt.Sprintf("(assert (and (=> (<= %s 0) (= %s %s)) (=> (>= %s 1) (and (= %s %s) (<= 0 %s) (<= %s 255)))))",
+				a.N.S, self.S, ini.S, a.N.S, self.S, stp.S, c.S, c.S))
+		}()
+		for _, ff := range w.contracts.Folds {
+			unfold(foldApp{ff.Name, a.Arr, a.Off, nm1}, d-1)
+		}
+	}
+	for _, a := range apps {
+		unfold(a, depth)
 	}
 	return out
 }
